@@ -98,7 +98,8 @@ class Runner:
             lim = dict(core.DEFAULT_BUDGET, **c.budget)["steps"]
             # (not for programs whose control flow depends on RAND / the clock: their two runs are not comparable)
             nondet = tuple(c.meta.get("compare", what)) == () or re.search(rb"RAND|TODAY|TIME|HOURS|MINUTES|SECONDS", c.prog or b"") is not None
-            if c.mode == "file" and r.budget_hit and not nondet and m is not None and not m.inconclusive and not m.crash and 0 <= m.steps < lim // 4:
+            steps_hit = any(dg.msg == "budget" and "steps" in (dg.text or "") for dg in r.diags)   # the cell / depth / nesting budgets have no counterpart in the model's step count
+            if c.mode == "file" and r.budget_hit and steps_hit and not nondet and m is not None and not m.inconclusive and not m.crash and 0 <= m.steps < lim // 4:
                 self.stats["disagreements"] += 1; g["disagreements"] += 1
                 self.report(c, b, r, m, [("termination", "real interpreter exhausted the step budget (%d)" % lim, "model finished after %d steps" % m.steps)], [])
                 return
